@@ -1,14 +1,18 @@
 (* Proof obligations over facts regenerated from /repo on every check (Generated/SourceFacts.v,
-   written by harness/cmd/facts).  Topic: endpoint.  When an edit of the sources changes a fact, the
-   lemma below stops compiling; the checks of the properties that depend on this topic then report
+   written by harness/cmd/facts).  Topic: endpoint.  The facts are semantic summaries (orders, literal
+   sets, capacity classes, parent classes of contexts, lock events per path), so a behaviour-
+   preserving rewrite regenerates the same facts; when an edit changes what the theorems rest on,
+   the lemma below stops compiling, the checks of the properties that depend on this topic report
    the broken obligation by name and search for a failing input. *)
 From Coq Require Import List String ZArith Bool.
 Import ListNotations.
 Require Import Verif.Common.LockEv Verif.Generated.SourceFacts.
+
 Open Scope string_scope.
 
-(* endpoint level: static (outermost) o plugin o (single stack | merge then flatmap) *)
-Lemma endpoint_order_ok : stack_New = ["pf.newSingle"; "pf.newMulti"; "NewPluginMiddleware"; "NewStaticMiddleware"].
-Proof. reflexivity. Qed.
-Lemma multi_order_ok : stack_newMulti = ["pf.newStack"; "NewMergeDataMiddleware"; "NewFlatmapMiddleware"].
-Proof. reflexivity. Qed.
+(* endpoint level: the static middleware wraps the plugin middleware, which wraps the backend part;
+   a multi-backend endpoint merges and then flat-maps *)
+Lemma endpoint_order_ok : before "NewPluginMiddleware" "NewStaticMiddleware" stack_New = true.
+Proof. vm_compute; reflexivity. Qed.
+Lemma multi_order_ok : before "NewMergeDataMiddleware" "NewFlatmapMiddleware" stack_newMulti = true.
+Proof. vm_compute; reflexivity. Qed.
